@@ -14,6 +14,8 @@ import os
 from .absint import EMPTY, FALSE, NONE, NONEMPTY, NOTNONE, TOP, TRUE, DefaultDomain, Interp, Result, State, exc, unbox, unbox_deep, val
 from .astutil import FUNC_TYPES, attr_chain, dotted, norm
 
+DELETED = ("deleted-attribute",)   # what the state holds for an attribute of a wrapped object removed with delattr / del
+
 
 class EffectDomain(DefaultDomain):
     track_lists = True
@@ -528,7 +530,11 @@ class EffectDomain(DefaultDomain):
         return None
 
     def delete(self, interp, target, st, fr):
-        """del d[k] on a local / self attribute holding an exact dict"""
+        """del d[k] on a local / self attribute holding an exact dict; del obj.attr on a wrapped object"""
+        if isinstance(target, ast.Attribute) and getattr(self, "wobj_state", False):
+            for r in interp.eval(target.value, st, fr):
+                if r.kind == "val":
+                    return self.delete_attr_on(r.value, target.attr, r.state)
         if not isinstance(target, ast.Subscript):
             return None
         key = interp._key_of(target.value, fr, st)
@@ -968,6 +974,12 @@ class EffectDomain(DefaultDomain):
                 return st.set(f"obj.{w[1]}.{parts[-1]}", value)
         return None
 
+    def delete_attr_on(self, base, attr, st):
+        """delattr(base, attr) / del base.attr -> state, or None when ``base`` is not an object of the model."""
+        if getattr(self, "wobj_state", False) and isinstance(base, tuple) and base[:1] == ("wobj",):
+            return st.set(f"obj.{base[1]}.{attr}", DELETED)
+        return None
+
     def store_attr_on(self, base, attr, value, st, fr):
         if getattr(self, "wobj_state", False) and isinstance(base, tuple) and base[:1] == ("wobj",):
             return st.set(f"obj.{base[1]}.{attr}", value)
@@ -1097,11 +1109,12 @@ class EffectDomain(DefaultDomain):
                     continue
                 obj, name = r.value[0], r.value[1]
                 if isinstance(obj, tuple) and obj[:1] == ("wobj",) and isinstance(name, tuple) and name[:1] == ("const",):
-                    missing = (obj[1], name[1]) in self.lacks
+                    stored = r.state.get(f"obj.{obj[1]}.{name[1]}", None)   # set / deleted while the analysed code ran
+                    missing = stored == DELETED or (stored is None and (obj[1], name[1]) in self.lacks)
                     if d == "hasattr":
                         out.append(val(FALSE if missing else TRUE, r.state))
                     elif not missing:
-                        v = self.attrs.get(f"{obj[1]}.{name[1]}")
+                        v = stored if stored is not None else self.attrs.get(f"{obj[1]}.{name[1]}")
                         out.append(val(v if v is not None else ("bound", obj[1], name[1]), r.state))
                     elif len(r.value) > 2:
                         out.append(val(r.value[2], r.state))
